@@ -219,21 +219,27 @@ fn state_from_json(v: &Value) -> BandState {
 
 /// Path alphabet: apath order /a < /b < /a/x < /b/y differs from string order.
 const PATHS: [&str; 4] = ["/a", "/b", "/a/x", "/b/y"];
+/// Second alphabet (thorough): a sibling that extends the excluded / selected name textually.
+const PATHS2: [&str; 4] = ["/a", "/a-b", "/a/x", "/a-b/y"];
 
 pub fn run(report: &Report, budget: &Budget) {
     let thorough = report.thorough();
     // (number of paths, number of bands) sweeps
-    let sweeps: Vec<(usize, usize, bool)> = if thorough { vec![(3, 3, true), (4, 3, false), (3, 4, false)] } else { vec![(3, 3, false)] };
+    let sweeps: Vec<(usize, usize, bool, &[&str; 4])> = if thorough {
+        vec![(3, 3, true, &PATHS), (4, 3, false, &PATHS2), (4, 3, false, &PATHS), (3, 4, false, &PATHS)]
+    } else {
+        vec![(3, 3, false, &PATHS)]
+    };
     let scratches: Vec<Scratch> = (0..crate::util::n_workers()).map(|_| Scratch::new("c08")).collect();
     let listings = AtomicU64::new(0);
     let mut archives_total = 0u64;
     let mut archives_done = 0u64;
     let mut complete = true;
-    for (np, nb, extra) in sweeps {
+    for (np, nb, extra, alphabet) in sweeps {
         let states = band_states(np, extra);
         let n = states.len().pow(nb as u32);
         archives_total += n as u64;
-        let paths = &PATHS[..np];
+        let paths = &alphabet[..np];
         let done = par_for(n, budget, |w, idx| {
             let mut bands = Vec::new();
             let mut k = idx;
@@ -265,7 +271,7 @@ pub fn run(report: &Report, budget: &Budget) {
             complete = false;
             break;
         }
-        report.set(&format!("sweep_{np}_paths_{nb}_bands_completed"), json!({"band_states": states.len(), "archives": n, "with_headless_and_lost_hunk_states": extra}));
+        report.set(&format!("sweep_{np}_paths_{nb}_bands_{}_completed", if alphabet[1] == "/b" { "alphabet1" } else { "alphabet2" }), json!({"band_states": states.len(), "archives": n, "with_headless_and_lost_hunk_states": extra}));
     }
     report.set("states", json!(archives_done));
     report.set("archives_total", json!(archives_total));
